@@ -566,6 +566,9 @@ func (x *fnExec) checkEffects(st *State, site ssa.Instruction) {
 	mods, all := x.callModifies(call, false)
 	touches := all
 	for _, m := range mods {
+		if m == "$fresh" {
+			continue
+		}
 		if strings.HasPrefix(m, "GH_eff") {
 			touches = true
 		}
